@@ -107,8 +107,10 @@ type tStep struct {
 	Ms    int    `json:"ms"`
 	S     int    `json:"s"` // tick: seconds
 	Gate  string `json:"gate"`
-	Gid   uint64 `json:"gid"` // gate id: the envelope id of the request to park
-	Pre   bool   `json:"pre"` // the context is already done when the call is made
+	Gid   uint64 `json:"gid"`  // gate id: the envelope id of the request to park
+	Pre   bool   `json:"pre"`  // the context is already done when the call is made
+	Src   string `json:"src"`  // burst: the (fresh) source of the simultaneous first requests
+	Dial  bool   `json:"dial"` // burst: NewConnection(address of src) races the requests
 }
 
 type tScen struct {
@@ -117,6 +119,7 @@ type tScen struct {
 	Compress  bool    `json:"compress"`
 	TimeoutS  int     `json:"timeout_s"`
 	IntervalS int     `json:"interval_s"`
+	AutoRead  bool    `json:"autoread"` // every connection GoatOverHttp hands out gets a reader loop at once
 	Steps     []tStep `json:"steps"`
 }
 
@@ -297,6 +300,7 @@ type tEnd struct {
 	w, r   *tWorker
 	nW, nR int
 	raw    *websocket.Conn
+	failed atomic.Bool // a Read returned an error (reader loops stop)
 }
 
 type tInst struct {
@@ -325,8 +329,17 @@ type tRun struct {
 	fc     clockwork.FakeClock
 	g      *gateTab
 	reqSeq atomic.Int64
+	arSeq  atomic.Int64 // ids of the reads issued by the reader loops (autoread)
 	unw    atomic.Bool
+	dead   atomic.Bool // the scenario is over: stragglers must not write into the next one
 	closer []func()
+}
+
+// emit writes a trace line of this scenario; goroutines that outlive it are muted.
+func (r *tRun) emit(e Ev) {
+	if !r.dead.Load() {
+		tr.emit(e)
+	}
 }
 
 func (r *tRun) settle() {
@@ -375,12 +388,12 @@ func tShort(err error) string {
 func (r *tRun) begin(op *tOp, start Ev, pre bool) {
 	r.mu.Lock()
 	defer r.mu.Unlock()
-	tr.emit(start)
+	r.emit(start)
 	op.started = true
 	if pre || op.early {
 		x := ev("CtxDone")
 		x.C = op.id
-		tr.emit(x)
+		r.emit(x)
 		op.cancel()
 	}
 }
@@ -391,12 +404,13 @@ func (r *tRun) doRead(e *tEnd, op *tOp, pre bool) {
 	if err != nil {
 		x := r.opEv("RErr", e, op.id)
 		x.Res, x.Msg = tErrClass(err), tShort(err)
-		tr.emit(x)
+		r.emit(x)
+		e.failed.Store(true)
 	} else {
 		e.nR++
 		x := r.opEv("R", e, op.id)
 		x.N, x.Pay = e.nR, tDigest(m)
-		tr.emit(x)
+		r.emit(x)
 	}
 	close(op.done)
 }
@@ -434,12 +448,12 @@ func (r *tRun) doWrite(e *tEnd, op *tOp, v *tVal, pre bool) {
 	if err != nil {
 		y := r.opEv("WErr", e, op.id)
 		y.Res, y.Msg = tErrClass(err), tShort(err)
-		tr.emit(y)
+		r.emit(y)
 	} else {
 		e.nW++
 		y := r.opEv("W", e, op.id)
 		y.N = e.nW
-		tr.emit(y)
+		r.emit(y)
 	}
 	close(op.done)
 }
@@ -458,13 +472,13 @@ func (r *tRun) doRaw(e *tEnd, st tStep) {
 	} else {
 		x.Res, x.Pay = "bad", tBytesDigest(data)
 	}
-	tr.emit(x)
+	r.emit(x)
 	ctx, cancel := context.WithTimeout(r.root, 30*time.Second)
 	defer cancel()
 	if err := e.raw.Write(ctx, typ, data); err != nil && !r.unw.Load() {
 		y := r.opEv("RawFail", e, st.Id)
 		y.Msg = tShort(err)
-		tr.emit(y)
+		r.emit(y)
 	}
 }
 
@@ -561,8 +575,28 @@ func (r *tRun) addConn(h *tInst, addr string, rw goat.RpcReadWriter, how string)
 	r.cur[h.name+"|"+addr] = e.conn
 	x := ev("Conn")
 	x.N, x.H, x.Msg, x.K, x.X = e.conn, e.conn, r.name(addr), how, h.name
-	tr.emit(x)
+	r.emit(x)
+	if r.sc.AutoRead {
+		go r.autoRead(e)
+	}
 	return e.conn
+}
+
+// autoRead is what an application does with a connection it is handed: read it
+// until it fails.  Every Read is an operation of its own (ids from 200001).
+func (r *tRun) autoRead(e *tEnd) {
+	for !r.unw.Load() && r.root.Err() == nil {
+		op := r.newOp(int(200000+r.arSeq.Add(1)), "R")
+		r.doRead(e, op, false)
+		select {
+		case <-op.ctx.Done(): // cancelled (unwind)
+			return
+		default:
+		}
+		if e.failed.Load() {
+			return
+		}
+	}
 }
 
 func (r *tRun) newInst(name string, loop bool) *tInst {
@@ -596,12 +630,12 @@ func (r *tRun) classify(h *tInst, data []byte) (class, addr, dg string) {
 	return class, addr, tDigest(m)
 }
 
-// doServe calls ServeHTTP directly: a panic in it is not recovered by anybody.
-func (r *tRun) doServe(h *tInst, st tStep, op *tOp) {
+// prepServe builds the request of an `hs` / `burst` step and its start line.
+func (r *tRun) prepServe(h *tInst, shape string, v *tVal, raw *tRaw, op *tOp) (*http.Request, Ev) {
 	x := ev("HS")
 	x.C, x.K, x.X = op.id, "direct", h.name
 	var body io.ReadCloser
-	switch st.Shape {
+	switch shape {
 	case "nobody":
 		x.Res = "nobody"
 	case "unreadable":
@@ -609,11 +643,11 @@ func (r *tRun) doServe(h *tInst, st tStep, op *tOp) {
 		body = io.NopCloser(tFailReader{})
 	default:
 		var data []byte
-		if st.Shape == "raw" {
-			data = st.Raw.build()
+		if shape == "raw" {
+			data = raw.build()
 		} else {
 			var err error
-			if data, err = proto.Marshal(st.V.build()); err != nil {
+			if data, err = proto.Marshal(v.build()); err != nil {
 				panic("verif-harness: " + err.Error())
 			}
 		}
@@ -630,13 +664,55 @@ func (r *tRun) doServe(h *tInst, st tStep, op *tOp) {
 		panic("verif-harness: " + err.Error())
 	}
 	q.Body = body
-	r.begin(op, x, st.Pre)
+	return q, x
+}
+
+// serve calls ServeHTTP directly: a panic in it is not recovered by anybody.
+func (r *tRun) serve(h *tInst, q *http.Request, op *tOp) {
 	rec := httptest.NewRecorder()
 	h.goh.ServeHTTP(rec, q)
 	y := ev("Http")
 	y.C, y.Code, y.X = op.id, rec.Code, h.name
-	tr.emit(y)
+	r.emit(y)
 	close(op.done)
+}
+
+func (r *tRun) doServe(h *tInst, st tStep, op *tOp) {
+	q, x := r.prepServe(h, st.Shape, st.V, st.Raw, op)
+	r.begin(op, x, st.Pre)
+	r.serve(h, q, op)
+}
+
+// burst releases len(st.Ids) first requests of one fresh source at the same
+// instant (optionally with a NewConnection for that source's address): the
+// start lines are written beforehand, the goroutines wait at a barrier and
+// then do nothing but call the library.
+func (r *tRun) burst(h *tInst, st tStep) {
+	start := make(chan struct{})
+	for i, id := range st.Ids {
+		v := *st.V
+		v.Id, v.Seed, v.Src = v.Id+uint64(i), v.Seed+int64(i), st.Src
+		op := r.newOp(id, "H")
+		q, x := r.prepServe(h, "val", &v, nil, op)
+		r.begin(op, x, false)
+		go func() {
+			<-start
+			r.serve(h, q, op)
+		}()
+	}
+	if st.Dial {
+		addr, _ := r.mapSource(h, st.Src)
+		go func() {
+			<-start
+			r.addConn(h, addr, h.goh.NewConnection(addr), "dial")
+		}()
+	}
+	if r.bubble {
+		synctest.Wait() // everybody is parked at the barrier
+	} else {
+		time.Sleep(time.Millisecond)
+	}
+	close(start)
 }
 
 type tStatusWriter struct {
@@ -680,14 +756,14 @@ func (r *tRun) wrap(h *tInst) http.Handler {
 			if p := recover(); p != nil {
 				c := ev("Crash")
 				c.C, c.X = op.id, fmt.Sprint(p)
-				tr.emit(c)
+				r.emit(c)
 				panic(http.ErrAbortHandler)
 			}
 		}()
 		h.goh.ServeHTTP(sw, q)
 		y := ev("Http")
 		y.C, y.Code, y.X = op.id, sw.code, h.name
-		tr.emit(y)
+		r.emit(y)
 	})
 }
 
@@ -729,7 +805,7 @@ func (r *tRun) endFor(st tStep, op *tOp) *tEnd {
 	if e == nil {
 		x := ev("NoConn") // GoatOverHttp never handed out the connection
 		x.C, x.Msg = st.Id, st.Addr
-		tr.emit(x)
+		r.emit(x)
 		close(op.done)
 	}
 	return e
@@ -752,7 +828,7 @@ func (r *tRun) cancelOp(id int) {
 	r.mu.Unlock()
 	x := ev("CtxDone")
 	x.C = id
-	tr.emit(x)
+	r.emit(x)
 	op.cancel()
 }
 
@@ -779,7 +855,7 @@ func (r *tRun) waitOps(ids []int, ms int) {
 			case <-op.done:
 				pending = false
 			case <-alive.C:
-				tr.emit(ev("Alive")) // keeps the wedge watchdog quiet: this runner has its own timeouts
+				r.emit(ev("Alive")) // keeps the wedge watchdog quiet: this runner has its own timeouts
 				if time.Now().After(deadline) {
 					return
 				}
@@ -840,11 +916,11 @@ func (r *tRun) quiesce() {
 		if op.ctx.Err() != nil {
 			x.Res = "done"
 		}
-		tr.emit(x)
+		r.emit(x)
 	}
 	x := ev("Quiesce")
 	x.N = len(p)
-	tr.emit(x)
+	r.emit(x)
 }
 
 func (r *tRun) step(st tStep) {
@@ -866,6 +942,8 @@ func (r *tRun) step(st tStep) {
 		h := r.insts[map[bool]string{true: "A", false: st.End}[st.End == ""]]
 		op := r.newOp(st.Id, "H")
 		go r.doServe(h, st, op)
+	case "burst":
+		r.burst(r.insts["A"], st)
 	case "dial":
 		h := r.insts[st.End]
 		addr := st.Addr
@@ -887,7 +965,7 @@ func (r *tRun) step(st tStep) {
 	case "tick":
 		x := ev("Tick")
 		x.N = st.S
-		tr.emit(x)
+		r.emit(x)
 		r.fc.Advance(time.Duration(st.S) * time.Second)
 	case "arm":
 		r.g.arm(st.Gate, st.Gid, 0)
@@ -930,7 +1008,7 @@ func (r *tRun) waitAll(d time.Duration) bool {
 }
 
 func (r *tRun) unwind() {
-	tr.emit(ev("Unwind"))
+	r.emit(ev("Unwind"))
 	r.unw.Store(true)
 	r.mu.Lock()
 	for _, op := range r.ops {
@@ -1009,12 +1087,29 @@ func (r *tRun) run(fam string) {
 	tr.start = time.Now()
 	tr.mu.Unlock()
 	r.root, r.stop = context.WithCancel(context.Background())
+	if !r.bubble {
+		// Real-time scenarios have their own (generous) timeouts everywhere; under heavy machine
+		// load a silent stretch of 4 s is no wedge.  The heartbeat stops after 3 minutes, so a
+		// real lock-up inside a synchronous library call still ends in a Wedged line.
+		go func() {
+			t := time.NewTicker(time.Second)
+			defer t.Stop()
+			for i := 0; i < 180; i++ {
+				select {
+				case <-r.root.Done():
+					return
+				case <-t.C:
+					r.emit(ev("Alive"))
+				}
+			}
+		}()
+	}
 	verifhook.Install(&verifhook.Hooks{Gate: r.g.gate})
 	defer verifhook.Install(nil)
 	b := ev("Begin")
 	b.K, b.X, b.N = fam, sc.Kind, 1
 	b.Code, b.C, b.H = sc.Cap, sc.TimeoutS, sc.IntervalS
-	tr.emit(b)
+	r.emit(b)
 	switch sc.Kind {
 	case "channel":
 		r.setupChannel()
@@ -1036,6 +1131,7 @@ func (r *tRun) run(fam string) {
 		r.step(st)
 	}
 	r.unwind()
+	r.dead.Store(true)
 	tr.emit(ev("End"))
 }
 
